@@ -15,6 +15,7 @@ import (
 	"github.com/sdcio/cache/proto/cachepb"
 	"github.com/sdcio/data-server/pkg/config"
 	"github.com/sdcio/data-server/pkg/datastore"
+	"github.com/sdcio/data-server/pkg/datastore/target"
 	"github.com/sdcio/data-server/pkg/datastore/types"
 	sdcpb "github.com/sdcio/sdc-protos/sdcpb"
 
@@ -35,12 +36,12 @@ type Intent struct {
 }
 
 type Step struct {
-	Op      string   `json:"op"` // txset | confirm | cancel | wait | restart | probe
+	Op      string   `json:"op"`            // txset | confirm | cancel | wait | restart | probe
 	Cfg     []Pair   `json:"cfg,omitempty"` // probe: a whole configuration, submitted as one intent to an empty datastore
 	ID      string   `json:"id,omitempty"`
 	Dry     bool     `json:"dry,omitempty"`
 	TmoMs   int      `json:"tmo,omitempty"`
-	MinMs   int      `json:"min,omitempty"` // wait: minimum duration
+	MinMs   int      `json:"min,omitempty"`   // wait: minimum duration
 	CtxMs   int      `json:"ctxms,omitempty"` // deadline of the call's context (default 3000)
 	Intents []Intent `json:"intents,omitempty"`
 	Replace *Intent  `json:"replace,omitempty"`
@@ -64,6 +65,29 @@ type Change struct {
 	Del    []string `json:"del"`
 	DelRaw []string `json:"delraw"`
 	Err    bool     `json:"err"`
+	// Enc: all renderings of the same TargetSource (device Set calls only, when the runner has Encodings on)
+	HasEnc bool       `json:"hasenc"`
+	Enc    Renderings `json:"enc"`
+}
+
+// XMLRendering is one ToXML rendering: the options and what the document denotes
+type XMLRendering struct {
+	Opts []bool `json:"opts"` // honorNamespace, operationWithNamespace, useOperationRemove
+	uni.XMLChange
+	Err string `json:"err"`
+	Doc string `json:"doc"`
+}
+
+// Renderings: what each southbound encoding of one TargetSource denotes (onlyNewOrUpdated = true) and the full views
+type Renderings struct {
+	Json     []Pair         `json:"json"`
+	Ietf     []Pair         `json:"ietf"`
+	XML      []XMLRendering `json:"xml"`
+	ProtoAll []Pair         `json:"protoall"` // onlyNewOrUpdated = false
+	JsonAll  []Pair         `json:"jsonall"`
+	IetfAll  []Pair         `json:"ietfall"`
+	XMLAll   []Pair         `json:"xmlall"`
+	Errs     []string       `json:"errs"`
 }
 
 type Mod struct {
@@ -106,7 +130,7 @@ type Event struct {
 	WaitMs  int      `json:"waitms"`
 	EnvSync bool     `json:"envsync"`
 	// FailKind: kind of the collaborator call that was made to fail ("" if none / not reached)
-	FailKind string `json:"failkind"`
+	FailKind string   `json:"failkind"`
 	Disabled []string `json:"disabled"`
 	Cfg      []Pair   `json:"cfg"`
 	// Since: ms between the return of the last applied TransactionSet and the return of this call (-1: none)
@@ -132,6 +156,8 @@ type Runner struct {
 	val   *config.Validation
 	// NoEnvSync disables the environment sync of the mirror after each step
 	NoEnvSync bool
+	// Encodings: render every TargetSource in all encodings inside the device's Set (C10, C12)
+	Encodings bool
 	// Steps executed
 	NSteps int
 	// time the last applied (ok, non dry) TransactionSet returned
@@ -174,6 +200,89 @@ func fixChange(c *Change) {
 	c.Upd = nz(c.Upd)
 	c.Del = nz(c.Del)
 	c.DelRaw = nz(c.DelRaw)
+	e := &c.Enc
+	e.Json, e.Ietf, e.ProtoAll, e.JsonAll, e.IetfAll, e.XMLAll, e.Errs = nz(e.Json), nz(e.Ietf), nz(e.ProtoAll), nz(e.JsonAll), nz(e.IetfAll), nz(e.XMLAll), nz(e.Errs)
+	e.XML = nz(e.XML)
+	for i := range e.XML {
+		e.XML[i].Opts = nz(e.XML[i].Opts)
+	}
+}
+
+func pairsOf(kvs [][2]string) []Pair {
+	out := make([]Pair, 0, len(kvs))
+	for _, kv := range kvs {
+		out = append(out, Pair{kv[0], kv[1]})
+	}
+	return out
+}
+
+// render calls every TargetSource method on the same tree instance and abstracts the results
+func (r *Runner) render(ctx context.Context, src target.TargetSource) *Renderings {
+	u := r.W.U
+	out := &Renderings{}
+	fail := func(what string, err error) { out.Errs = append(out.Errs, what+": "+err.Error()) }
+	jdec := func(v any, what string) []Pair {
+		b, err := json.Marshal(v)
+		if err != nil {
+			fail(what, err)
+			return nil
+		}
+		if v == nil || string(b) == "null" {
+			return nil
+		}
+		kvs, err := u.DecodeJSON(b)
+		if err != nil {
+			fail(what, err)
+			return nil
+		}
+		return pairsOf(kvs)
+	}
+	for _, only := range []bool{true, false} {
+		j, err := src.ToJson(only)
+		if err != nil {
+			fail("ToJson", err)
+		}
+		ji, err := src.ToJsonIETF(only)
+		if err != nil {
+			fail("ToJsonIETF", err)
+		}
+		if only {
+			out.Json, out.Ietf = jdec(j, "json"), jdec(ji, "ietf")
+		} else {
+			out.JsonAll, out.IetfAll = jdec(j, "jsonall"), jdec(ji, "ietfall")
+		}
+	}
+	if upds, err := src.ToProtoUpdates(ctx, false); err != nil {
+		fail("ToProtoUpdates(false)", err)
+	} else {
+		c := r.absChange(upds, nil)
+		out.ProtoAll = c.Upd
+	}
+	for _, ns := range []bool{false, true} {
+		for _, opns := range []bool{false, true} {
+			for _, rm := range []bool{false, true} {
+				xr := XMLRendering{Opts: []bool{ns, opns, rm}}
+				doc, err := src.ToXML(true, ns, opns, rm)
+				if err != nil {
+					xr.Err = err.Error()
+				} else if ch, err := u.DecodeXML(doc, ns); err != nil {
+					xr.Err = err.Error()
+				} else {
+					xr.XMLChange = *ch
+					xr.Doc, _ = doc.WriteToString()
+				}
+				out.XML = append(out.XML, xr)
+			}
+		}
+	}
+	if doc, err := src.ToXML(false, true, false, false); err != nil {
+		fail("ToXML(false)", err)
+	} else if ch, err := u.DecodeXML(doc, true); err != nil {
+		fail("DecodeXML(all)", err)
+	} else {
+		out.XMLAll = pairsOf(ch.Upd)
+	}
+	return out
 }
 
 func validationFor(disabled []string) *config.Validation {
@@ -210,6 +319,14 @@ func (r *Runner) open(name string, device *dev.Device) error {
 	r.plan = deco.NewPlan()
 	r.cdeco = deco.NewCache(r.W.Cache, r.plan)
 	r.sdeco = deco.NewSchema(r.W.Schema, r.plan)
+	if device == nil {
+		device = dev.New()
+	}
+	if r.Encodings {
+		device.OnSet = func(ctx context.Context, src target.TargetSource, call *dev.SetCall) {
+			call.Extra = r.render(ctx, src)
+		}
+	}
 	ds, err := r.W.NewDS(env.DSOpts{Name: name, Validation: r.val, Cache: r.cdeco, Schema: r.sdeco, Device: device})
 	if err != nil {
 		return err
@@ -370,7 +487,9 @@ func (r *Runner) absChange(upds []*sdcpb.Update, dels []*sdcpb.Path) Change {
 			}
 		}
 	}
-	sort.Slice(c.Upd, func(i, j int) bool { return c.Upd[i][0] < c.Upd[j][0] || (c.Upd[i][0] == c.Upd[j][0] && c.Upd[i][1] < c.Upd[j][1]) })
+	sort.Slice(c.Upd, func(i, j int) bool {
+		return c.Upd[i][0] < c.Upd[j][0] || (c.Upd[i][0] == c.Upd[j][0] && c.Upd[i][1] < c.Upd[j][1])
+	})
 	sort.Strings(c.Del)
 	sort.Strings(c.DelRaw)
 	return c
@@ -437,6 +556,9 @@ func (r *Runner) collect(ev *Event, devFrom int) {
 	for _, c := range r.ds.Dev.CallsFrom(devFrom) {
 		ch := r.absChange(c.Upd, c.Del)
 		ch.Err = c.Err != nil
+		if rd, ok := c.Extra.(*Renderings); ok && rd != nil {
+			ch.HasEnc, ch.Enc = true, *rd
+		}
 		ev.Sets = append(ev.Sets, ch)
 	}
 	ev.Mods = r.absMods(r.cdeco.TakeModifies())
